@@ -61,8 +61,32 @@ def rule_I1(ctx, classes):
                 s = sub_of[i] = set(f.walk(i))
             return s
         ifs = [(i, n) for i, n in f.all_nodes() if n['k'] == 'IfStmt']
+        # bool locals defined once as a conjunction that contains a parameter: `const bool dograd = gradp && _gradp;`
+        implied = {}
+        for i, n in f.all_nodes():
+            if n['k'] == 'DeclStmt':
+                for d in n['decls']:
+                    if d['t'].replace('const ', '') == 'bool' and d.get('init', -1) >= 0:
+                        conj = []
+                        st = [d['init']]
+                        while st:
+                            j = f.strip_casts(st.pop())
+                            jn = f.nodes[j]
+                            if jn['k'] == 'BinaryOperator' and jn.get('op') == '&&':
+                                st += jn['ch']
+                            elif jn['k'] == 'DeclRefExpr' and jn.get('rk') == 'param':
+                                conj.append(jn['d'])
+                        if conj and not any((m['k'] in ('BinaryOperator', 'CompoundAssignOperator') and m.get('op') in ASSIGN_OPS
+                                             and f.nodes[f.strip(m['ch'][0])].get('d') == d['d']) for _, m in f.all_nodes()):
+                            implied[d['d']] = set(conj)
+
+        def guards(cond, pd):
+            if _is_param_ref(f, cond, pd):
+                return True
+            cn = f.nodes[f.strip_casts(cond)]
+            return cn['k'] == 'DeclRefExpr' and cn.get('rk') == 'local' and pd in implied.get(cn.get('d'), ())
         for p in bools:
-            regions = [(i, n) for i, n in ifs if _is_param_ref(f, n['cond'], p['d']) and n.get('then', -1) >= 0]
+            regions = [(i, n) for i, n in ifs if guards(n['cond'], p['d']) and n.get('then', -1) >= 0]
             if not regions:
                 continue
             then_nodes = set()
